@@ -364,3 +364,532 @@ Proof.
     match type of D with sender_event _ ?sx ?e = _ => refine (SE e true sx _ eq_refl eq_refl eq_refl eq_refl eq_refl eq_refl eq_refl eq_refl eq_refl eq_refl st1 D eq_refl) end. constructor.
 Qed.
 End Tr.
+
+(* ================================================================================================ *)
+(* counting agenda entries through AddsT *)
+Definition ncount (p : aev -> bool) (news : list (Q * aev)) : nat := length (filter (fun x => p (snd x)) news).
+
+Lemma acount_cons p a l : acount p (a :: l) = (b2n (p (ae_ev a)) + acount p l)%nat.
+Proof. unfold acount. cbn [filter]. destruct (p (ae_ev a)); reflexivity. Qed.
+
+Lemma ncount_app p a b : ncount p (a ++ b) = (ncount p a + ncount p b)%nat.
+Proof. unfold ncount. rewrite filter_app, app_length. reflexivity. Qed.
+
+Lemma ncount_cons p x l : ncount p (x :: l) = (b2n (p (snd x)) + ncount p l)%nat.
+Proof. unfold ncount. cbn [filter]. destruct (p (snd x)); reflexivity. Qed.
+
+Lemma AddsT_acount p ag ag' news : AddsT ag ag' news -> acount p ag' = (ncount p news + acount p ag)%nat.
+Proof.
+  induction 1 as [|ag ag' news t q k e H IH]; [reflexivity|].
+  rewrite ainsert_count, IH, ncount_app. cbn [ae_ev]. unfold ncount at 3. cbn [filter snd].
+  destruct (p e); cbn [length]; lia.
+Qed.
+
+Lemma AddsT_In_iff ag ag' news : AddsT ag ag' news -> forall a,
+  In a ag' -> In a ag \/ In (ae_time a, ae_ev a) news.
+Proof.
+  induction 1 as [|ag ag' news t q k e H IH]; intros a Ha; [left; exact Ha|].
+  apply ainsert_In in Ha as [->|Ha].
+  - right. apply in_or_app. right. left. reflexivity.
+  - destruct (IH a Ha) as [?|?]; [left; assumption|right; apply in_or_app; left; assumption].
+Qed.
+
+Lemma AddsT_In_old ag ag' news a : AddsT ag ag' news -> In a ag -> In a ag'.
+Proof. induction 1; [auto|]. intros Ha. apply ainsert_In. right. auto. Qed.
+
+Lemma AddsT_In_new ag ag' news t e : AddsT ag ag' news -> In (t, e) news -> exists a, In a ag' /\ ae_time a = t /\ ae_ev a = e.
+Proof.
+  induction 1 as [|ag ag' news t0 q k e0 H IH]; [intros []|]. intros Hin. apply in_app_or in Hin as [Hin|[E|[]]].
+  - destruct (IH Hin) as (a & Ha & A1 & A2). exists a. split; [apply ainsert_In; right; exact Ha|auto].
+  - injection E as <- <-. exists (mkae t0 q k e0). split; [apply ainsert_In; left; reflexivity|auto].
+Qed.
+
+Lemma AddsT_sorted ag ag' news : AddsT ag ag' news -> asorted ag -> asorted ag'.
+Proof. induction 1; [auto|]. intros Hs. apply ainsert_sorted. auto. Qed.
+
+Lemma asorted_head a rest b : asorted (a :: rest) -> In b rest -> (ae_time a <= ae_time b)%Q.
+Proof. cbn [asorted]. intros [H _] Hb. rewrite Forall_forall in H. apply H, Hb. Qed.
+
+(* ================================================================================================ *)
+(* the timing / control invariant of the two wires *)
+Section W.
+Variable lc : lcfg.
+Local Notation d := (lc_delay lc).
+
+Definition ackct (e : aev) : option Q :=
+  match e with AWireGetA _ _ _ ct | AWireOutA _ _ _ ct => Some ct | _ => None end.
+
+Definition entry_w (now t : Q) (e : aev) : Prop :=
+  match e with
+  | AWireInit _ | AWirePutCb _ | AWireGetD _ => (t <= now)%Q
+  | AWireGetA _ _ _ ct => (t <= now /\ ct <= now /\ now <= ct + d)%Q
+  | AWireOutD _ => (t <= now + d)%Q
+  | AWireOutA _ _ _ ct => (t <= ct + d /\ ct <= now)%Q
+  | _ => True
+  end.
+
+Fixpoint sortedQ (l : list Q) : Prop :=
+  match l with [] => True | x :: t => Forall (fun y => (x <= y)%Q) t /\ sortedQ t end.
+
+(* the data wire: where its process is; a waiting process with packets in the store is being woken *)
+Record WD (ag : list aentry) (w : wireD) : Prop := {
+  wd_ctl : (acount is_holdD ag + acount is_initD ag + b2n (wd_waiting w))%nat = 1%nat;
+  wd_wait : acount is_holdD ag = O -> wd_items w <> [] -> (0 < acount is_putD ag + acount is_initD ag)%nat
+}.
+(* the ACK wire: the same, and every ACK (created at ct) is on time for ct + d, in creation order *)
+Record WA (now : Q) (ag : list aentry) (w : wireA) : Prop := {
+  wa_ctl : (acount is_holdA ag + acount is_initA ag + b2n (wa_waiting w))%nat = 1%nat;
+  wa_wait : acount is_holdA ag = O -> wa_items w <> [] -> (0 < acount is_putA ag + acount is_initA ag)%nat;
+  wa_acks : Forall (fun r => (a_ct r <= now /\ now <= a_ct r + d)%Q) (wa_items w);
+  wa_sorted : sortedQ (map a_ct (wa_items w));
+  wa_held_le : forall a c, In a ag -> ackct (ae_ev a) = Some c -> Forall (fun r => (c <= a_ct r)%Q) (wa_items w)
+}.
+Record LInvW (st : lstate) : Prop := {
+  w_now : (0 <= l_now st)%Q;
+  w_pkt : pkt_ok (l_now st) (l_pkt st);
+  w_ent : Forall (fun a => entry_w (l_now st) (ae_time a) (ae_ev a)) (l_agenda st);
+  w_D : WD (l_agenda st) (l_wd st);
+  w_A : WA (l_now st) (l_agenda st) (l_wa st)
+}.
+
+Lemma pkt_ok_mono now now' m : (now <= now')%Q -> pkt_ok now m -> pkt_ok now' m.
+Proof. intros H P id t c E. destruct (P id t c E). split; lra. Qed.
+
+Lemma entry_w_mono now tau t e : (now <= tau)%Q -> (tau <= t)%Q -> entry_w now t e -> entry_w tau t e.
+Proof. intros H1 H2. destruct e; cbn [entry_w]; auto; intros; lra. Qed.
+
+(* what the outputs of a sender event put on the agenda *)
+Definition news_kind (tau : Q) (x : Q * aev) : Prop :=
+  (x = (nq tau, AWirePutCb false)) \/ (exists id, x = (nq tau, ATimerInit id)) \/ (exists id r, x = (nq (tau + r), ATimerFire id)).
+
+Lemma oeff_kinds tau : forall o n1 nw kp k, oeff lc tau n1 o = (nw, kp, k) ->
+  Forall (news_kind tau) nw /\ (kp <> [] -> In (nq tau, AWirePutCb false) nw).
+Proof.
+  induction o as [|x o IH]; intros n1 nw kp k; cbn [oeff].
+  - intros E; injection E as <- <- <-. split; [constructor|intros H; contradiction].
+  - destruct x as [id z|id r|id|id r].
+    + destruct (oeff lc tau (S n1) o) as [[nw1 kp1] k1] eqn:E1. destruct (IH _ _ _ _ E1) as [A B].
+      destruct (droppedD lc n1); intros E; injection E as <- <- <-.
+      * split; assumption.
+      * split; [constructor; [left; reflexivity|exact A]|intros _; left; reflexivity].
+    + destruct (oeff lc tau n1 o) as [[nw1 kp1] k1] eqn:E1. destruct (IH _ _ _ _ E1) as [A B].
+      intros E; injection E as <- <- <-. split; [constructor; [right; left; eauto|exact A]|intros H; right; auto].
+    + apply IH.
+    + destruct (oeff lc tau n1 o) as [[nw1 kp1] k1] eqn:E1. destruct (IH _ _ _ _ E1) as [A B].
+      intros E; injection E as <- <- <-. split; [constructor; [right; right; eauto|exact A]|intros H; right; auto].
+Qed.
+
+Lemma extra_news_kind tau s s' e x : In x (extra_news tau s s' e) -> x = (nq tau, ASenderCb) \/ x = (nq tau, ASenderWake).
+Proof.
+  unfold extra_news. intros H. apply in_app_or in H as [H|H].
+  - destruct (_ <? _)%nat; [destruct H as [<-|[]]; left; reflexivity|destruct H].
+  - destruct (_ && _); [destruct H as [<-|[]]; right; reflexivity|destruct H].
+Qed.
+
+(* a predicate that no sender-produced entry satisfies *)
+Definition wire_pred (p : aev -> bool) : Prop :=
+  p ASenderCb = false /\ p ASenderWake = false /\ (forall id, p (ATimerInit id) = false) /\ (forall id, p (ATimerFire id) = false).
+
+Lemma ncount_sender_news p tau o n1 nw kp k s s' e :
+  wire_pred p -> oeff lc tau n1 o = (nw, kp, k) ->
+  ncount p (nw ++ extra_news tau s s' e) = (if p (AWirePutCb false) then ncount is_putD nw else O).
+Proof.
+  intros (P1 & P2 & P3 & P4) Ho. destruct (oeff_kinds tau o n1 nw kp k Ho) as [Hk _].
+  rewrite ncount_app.
+  assert (E2 : ncount p (extra_news tau s s' e) = O).
+  { unfold ncount. apply length_zero_iff_nil. apply filter_none. intros x Hx.
+    apply extra_news_kind in Hx as [->| ->]; cbn [snd]; assumption. }
+  rewrite E2, Nat.add_0_r. clear Ho. induction Hk as [|x l Hx Hl IH]; [destruct (p (AWirePutCb false)); reflexivity|].
+  rewrite !ncount_cons, IH. destruct Hx as [->|[(id & ->)|(id & r & ->)]]; cbn [snd is_putD]; rewrite ?P3, ?P4;
+    destruct (p (AWirePutCb false)); cbn [b2n]; lia.
+Qed.
+End W.
+
+Section Wstep.
+Variable lc : lcfg.
+Local Notation d := (lc_delay lc).
+Hypothesis Hd : (0 <= d)%Q.
+
+Lemma AddsT_ent tau rest ag' news :
+  AddsT rest ag' news -> Forall (fun b => entry_w lc tau (ae_time b) (ae_ev b)) rest ->
+  Forall (fun x => entry_w lc tau (fst x) (snd x)) news -> Forall (fun b => entry_w lc tau (ae_time b) (ae_ev b)) ag'.
+Proof. intros H. apply (AddsT_Forall (entry_w lc tau) _ _ _ H). Qed.
+
+Lemma sum_pos_ex p q l : (0 < acount p l + acount q l)%nat -> exists b, In b l /\ (p (ae_ev b) = true \/ q (ae_ev b) = true).
+Proof.
+  intros H. destruct (acount p l) as [|k] eqn:E1.
+  - destruct (acount_pos q l) as (b & B1 & B2); [lia|]. eauto.
+  - destruct (acount_pos p l) as (b & B1 & B2); [lia|]. eauto.
+Qed.
+
+Ltac cnts HA := repeat rewrite (AddsT_acount _ _ _ _ HA); repeat rewrite acount_cons; repeat rewrite ncount_app; repeat rewrite ncount_cons.
+
+(* ---- data wire ---- *)
+(* the entry taken off is replaced by entries of the same role; the store is untouched *)
+Lemma WD_0 a rest ag' news w :
+  WD (a :: rest) w -> AddsT rest ag' news ->
+  ncount is_holdD news = b2n (is_holdD (ae_ev a)) -> ncount is_initD news = b2n (is_initD (ae_ev a)) ->
+  (is_putD (ae_ev a) = true -> wd_waiting w = false) -> WD ag' w.
+Proof.
+  intros [cD wD] HA C1 C2 Hp. repeat rewrite acount_cons in cD. repeat rewrite acount_cons in wD.
+  constructor; repeat rewrite (AddsT_acount _ _ _ _ HA); [lia|].
+  intros H0 Hne. assert (Hh : (b2n (is_holdD (ae_ev a)) + acount is_holdD rest)%nat = O) by lia.
+  specialize (wD Hh Hne). destruct (is_putD (ae_ev a)) eqn:Ep; [|cbn [b2n] in wD; lia].
+  rewrite (Hp eq_refl) in cD. cbn [b2n] in cD. lia.
+Qed.
+
+(* a sender event appends segments to the store, with a put callback *)
+Lemma WD_1 a rest ag' news w kp :
+  WD (a :: rest) w -> AddsT rest ag' news ->
+  is_holdD (ae_ev a) = false -> is_initD (ae_ev a) = false -> is_putD (ae_ev a) = false ->
+  ncount is_holdD news = O -> ncount is_initD news = O -> (kp <> [] -> (1 <= ncount is_putD news)%nat) ->
+  WD ag' (mkwd (wd_items w ++ kp) (wd_waiting w)).
+Proof.
+  intros [cD wD] HA E1 E2 E3 C1 C2 C3. repeat rewrite acount_cons in cD. repeat rewrite acount_cons in wD.
+  rewrite E1, E2 in cD. rewrite E1, E2, E3 in wD. cbn [b2n] in *.
+  constructor; cbn [wd_items wd_waiting]; repeat rewrite (AddsT_acount _ _ _ _ HA); [lia|].
+  intros H0 Hne. destruct (wd_items w) as [|x l] eqn:Ei.
+  - cbn [app] in Hne. specialize (C3 Hne). lia.
+  - assert (Hh : (0 + acount is_holdD rest)%nat = O) by lia. specialize (wD Hh ltac:(discriminate)). lia.
+Qed.
+
+(* the wire's process asks its store for the next packet *)
+Lemma WD_2 tau a rest ag' n0 w :
+  WD (a :: rest) w -> AddsT rest ag' (n0 ++ fst (getD_eff tau w)) ->
+  ncount is_holdD n0 = O -> ncount is_initD n0 = O ->
+  (is_initD (ae_ev a) = true \/ (is_putD (ae_ev a) = true /\ wd_waiting w = true) \/ is_holdD (ae_ev a) = true) ->
+  WD ag' (snd (getD_eff tau w)).
+Proof.
+  intros [cD wD] HA C1 C2 Hrole. repeat rewrite acount_cons in cD.
+  assert (Z0 : acount is_holdD rest = O /\ acount is_initD rest = O).
+  { destruct Hrole as [R|[[R1 R2]|R]].
+    - rewrite R in cD. cbn [b2n] in cD. lia.
+    - rewrite R2 in cD. cbn [b2n] in cD. lia.
+    - rewrite R in cD. cbn [b2n] in cD. lia. }
+  destruct Z0 as [Z1 Z2]. unfold getD_eff in *. destruct (wd_items w) as [|x l]; cbn [fst snd] in *.
+  - constructor; cbn [wd_items wd_waiting]; repeat rewrite (AddsT_acount _ _ _ _ HA); repeat rewrite ncount_app;
+      cbn [ncount filter length]; [cbn [b2n]; lia|]. intros _ H. contradiction.
+  - constructor; cbn [wd_items wd_waiting]; repeat rewrite (AddsT_acount _ _ _ _ HA); repeat rewrite ncount_app; repeat rewrite ncount_cons;
+      cbn [snd is_holdD is_initD dataid_of b2n ncount filter length]; lia.
+Qed.
+
+(* ---- ACK wire ---- *)
+Lemma ackct_hold e c : ackct e = Some c -> is_holdA e = true.
+Proof. destruct e; cbn; try discriminate; reflexivity. Qed.
+
+Lemma sortedQ_app l x : sortedQ l -> Forall (fun y => (y <= x)%Q) l -> sortedQ (l ++ [x]).
+Proof.
+  induction l as [|y l IH]; cbn [sortedQ app]; [intros _ _; split; [constructor|exact I]|].
+  intros [Hy Hl] Hf. inversion Hf as [|? ? Hyx Hf']; subst. split; [|apply IH; assumption].
+  apply Forall_app. split; [exact Hy|]. constructor; [exact Hyx|constructor].
+Qed.
+
+(* the clock cannot pass the delivery instant ct + d of an ACK in the ACK wire *)
+Lemma head_time_acks now tau ag w r :
+  WA lc now ag w -> Forall (fun b => entry_w lc now (ae_time b) (ae_ev b)) ag ->
+  (forall b, In b ag -> (tau <= ae_time b)%Q) -> In r (wa_items w) -> (tau <= a_ct r + d)%Q.
+Proof.
+  intros [cA wA aA sA hA] He Hh Hr. rewrite Forall_forall in aA, He. destruct (aA r Hr) as [A1 A2].
+  destruct (acount is_holdA ag) as [|n] eqn:Eh.
+  - assert (Hne : wa_items w <> []) by (intros E; rewrite E in Hr; destruct Hr).
+    destruct (sum_pos_ex _ _ _ (wA eq_refl Hne)) as (b & B1 & B2).
+    pose proof (Hh b B1) as T1. pose proof (He b B1) as T2.
+    destruct (ae_ev b) as [| | | |[]|[]| | | |]; cbn [is_putA is_initA entry_w] in *; destruct B2; try discriminate; lra.
+  - destruct (acount_pos is_holdA ag) as (b & B1 & B2); [lia|].
+    pose proof (Hh b B1) as T1. pose proof (He b B1) as T2.
+    destruct (ae_ev b) eqn:Eb; try discriminate; cbn [entry_w] in T2.
+    + lra.
+    + pose proof (hA b ct B1) as Hl. rewrite Eb in Hl. specialize (Hl eq_refl). rewrite Forall_forall in Hl.
+      specialize (Hl r Hr). lra.
+Qed.
+
+Lemma WA_adv now tau ag w :
+  WA lc now ag w -> (now <= tau)%Q -> (forall r, In r (wa_items w) -> (tau <= a_ct r + d)%Q) -> WA lc tau ag w.
+Proof.
+  intros [cA wA aA sA hA] Hn Hh. constructor; auto.
+  apply Forall_forall. intros r Hr. rewrite Forall_forall in aA. destruct (aA r Hr). specialize (Hh r Hr). split; lra.
+Qed.
+
+Lemma WA_0 tau a rest ag' news w :
+  WA lc tau (a :: rest) w -> AddsT rest ag' news ->
+  ncount is_holdA news = b2n (is_holdA (ae_ev a)) -> ncount is_initA news = b2n (is_initA (ae_ev a)) ->
+  (is_putA (ae_ev a) = true -> wa_waiting w = false) ->
+  (forall x c, In x news -> ackct (snd x) = Some c -> ackct (ae_ev a) = Some c) -> WA lc tau ag' w.
+Proof.
+  intros [cA wA aA sA hA] HA C1 C2 Hp Hheld. repeat rewrite acount_cons in cA. repeat rewrite acount_cons in wA.
+  constructor; auto; repeat rewrite (AddsT_acount _ _ _ _ HA); [lia| |].
+  - intros H0 Hne. assert (Hh : (b2n (is_holdA (ae_ev a)) + acount is_holdA rest)%nat = O) by lia.
+    specialize (wA Hh Hne). destruct (is_putA (ae_ev a)) eqn:Ep; [|cbn [b2n] in wA; lia].
+    rewrite (Hp eq_refl) in cA. cbn [b2n] in cA. lia.
+  - intros b c Hb Hc. destruct (AddsT_In_iff _ _ _ HA b Hb) as [Hold|Hnew].
+    + apply (hA b c); [right; exact Hold|exact Hc].
+    + apply (hA a c); [left; reflexivity|]. apply (Hheld _ _ Hnew). exact Hc.
+Qed.
+
+(* the sink appends an ACK created now, with a put callback *)
+Lemma WA_1 tau a rest ag' news w r :
+  WA lc tau (a :: rest) w -> AddsT rest ag' news -> a_ct r = tau ->
+  is_holdA (ae_ev a) = false -> is_initA (ae_ev a) = false -> is_putA (ae_ev a) = false ->
+  ncount is_holdA news = O -> ncount is_initA news = O -> (1 <= ncount is_putA news)%nat ->
+  (forall x, In x news -> ackct (snd x) = None) ->
+  (forall b c, In b rest -> ackct (ae_ev b) = Some c -> (c <= tau)%Q) ->
+  WA lc tau ag' (mkwa (wa_items w ++ [r]) (wa_waiting w)).
+Proof.
+  intros [cA wA aA sA hA] HA Er E1 E2 E3 C1 C2 C3 Hnone Hc. repeat rewrite acount_cons in cA. repeat rewrite acount_cons in wA.
+  rewrite E1, E2 in cA. rewrite E1, E2, E3 in wA. cbn [b2n] in *.
+  constructor; cbn [wa_items wa_waiting]; repeat rewrite (AddsT_acount _ _ _ _ HA).
+  - lia.
+  - intros _ _. lia.
+  - apply Forall_app. split; [exact aA|]. constructor; [|constructor]. rewrite Er. split; lra.
+  - rewrite map_app. cbn [map]. apply sortedQ_app; [exact sA|]. apply Forall_forall. intros y Hy.
+    apply in_map_iff in Hy as (x & <- & Hx). rewrite Forall_forall in aA. destruct (aA x Hx). rewrite Er. lra.
+  - intros b c Hb Hbc. destruct (AddsT_In_iff _ _ _ HA b Hb) as [Hold|Hnew].
+    + apply Forall_app. split; [apply (hA b c); [right; exact Hold|exact Hbc]|]. constructor; [|constructor].
+      rewrite Er. eapply Hc; eauto.
+    + pose proof (Hnone _ Hnew) as Hx. cbn [snd] in Hx. congruence.
+Qed.
+
+Lemma sortedQ_map_head x l : sortedQ (map a_ct (x :: l)) -> Forall (fun r => (a_ct x <= a_ct r)%Q) l /\ sortedQ (map a_ct l).
+Proof.
+  cbn [map sortedQ]. intros [H1 H2]. split; [|exact H2]. apply Forall_forall. intros r Hr. rewrite Forall_forall in H1. apply H1. apply in_map. exact Hr.
+Qed.
+
+(* the ACK wire's process asks its store for the next packet *)
+Lemma WA_2 tau a rest ag' n0 w :
+  WA lc tau (a :: rest) w -> AddsT rest ag' (n0 ++ fst (getA_eff tau w)) ->
+  ncount is_holdA n0 = O -> ncount is_initA n0 = O -> (forall x, In x n0 -> ackct (snd x) = None) ->
+  (is_initA (ae_ev a) = true \/ (is_putA (ae_ev a) = true /\ wa_waiting w = true) \/ is_holdA (ae_ev a) = true) ->
+  WA lc tau ag' (snd (getA_eff tau w)).
+Proof.
+  intros [cA wA aA sA hA] HA C1 C2 Hnone Hrole. repeat rewrite acount_cons in cA.
+  assert (Z0 : acount is_holdA rest = O /\ acount is_initA rest = O).
+  { destruct Hrole as [R|[[R1 R2]|R]].
+    - rewrite R in cA. cbn [b2n] in cA. lia.
+    - rewrite R2 in cA. cbn [b2n] in cA. lia.
+    - rewrite R in cA. cbn [b2n] in cA. lia. }
+  destruct Z0 as [Z1 Z2].
+  assert (NoOld : forall b c, In b rest -> ackct (ae_ev b) = Some c -> False).
+  { intros b c Hb Hc. apply ackct_hold in Hc. pose proof (acount_zero _ _ Z1 b Hb). congruence. }
+  unfold getA_eff in *. destruct (wa_items w) as [|x l] eqn:Ei; cbn [fst snd] in *.
+  - constructor; cbn [wa_items wa_waiting map sortedQ]; repeat rewrite (AddsT_acount _ _ _ _ HA); repeat rewrite ncount_app;
+      cbn [ncount filter length]; auto.
+    + cbn [b2n]. lia.
+    + intros _ H. contradiction.
+  - apply sortedQ_map_head in sA as [S1 S2]. inversion aA as [|? ? Ax Al]; subst.
+    constructor; cbn [wa_items wa_waiting]; repeat rewrite (AddsT_acount _ _ _ _ HA); repeat rewrite ncount_app; repeat rewrite ncount_cons;
+      cbn [snd is_holdA is_initA ackno_of b2n ncount filter length]; auto; try lia.
+    intros b c Hb Hc. destruct (AddsT_In_iff _ _ _ HA b Hb) as [Hold|Hnew]; [exfalso; eapply NoOld; eauto|].
+    apply in_app_or in Hnew as [Hnew|[Hnew|[]]]; [pose proof (Hnone _ Hnew) as Hx; cbn [snd] in Hx; congruence|].
+    injection Hnew as Ht Hev. rewrite <- Hev in Hc. cbn [ackct] in Hc. injection Hc as <-. exact S1.
+Qed.
+
+(* ---- entries ---- *)
+Lemma ent_adv now tau a rest :
+  Forall (fun b => entry_w lc now (ae_time b) (ae_ev b)) (a :: rest) -> (now <= tau)%Q ->
+  (forall b, In b rest -> (tau <= ae_time b)%Q) -> Forall (fun b => entry_w lc tau (ae_time b) (ae_ev b)) rest.
+Proof.
+  intros He Hn Hr. inversion He as [|? ? _ Hrest]; subst. apply Forall_forall. intros b Hb.
+  rewrite Forall_forall in Hrest. apply (entry_w_mono lc now); auto.
+Qed.
+
+Lemma nq_le tau : (nq tau <= tau)%Q.
+Proof. rewrite nq_eq. apply Qle_refl. Qed.
+
+Lemma sender_news_ent tau o n1 nw kp k s s' e :
+  oeff lc tau n1 o = (nw, kp, k) -> Forall (fun x => entry_w lc tau (fst x) (snd x)) (nw ++ extra_news tau s s' e).
+Proof.
+  intros Ho. destruct (oeff_kinds lc tau o n1 nw kp k Ho) as [Hk _]. apply Forall_app. split.
+  - eapply Forall_impl; [|exact Hk]. intros x [->|[(id & ->)|(id & r & ->)]]; cbn [fst snd entry_w]; auto. apply nq_le.
+  - apply Forall_forall. intros x Hx. apply extra_news_kind in Hx as [->| ->]; exact I.
+Qed.
+
+Lemma sender_news_noack tau o n1 nw kp k s s' e x :
+  oeff lc tau n1 o = (nw, kp, k) -> In x (nw ++ extra_news tau s s' e) -> ackct (snd x) = None.
+Proof.
+  intros Ho Hx. destruct (oeff_kinds lc tau o n1 nw kp k Ho) as [Hk _]. apply in_app_or in Hx as [Hx|Hx].
+  - rewrite Forall_forall in Hk. destruct (Hk x Hx) as [->|[(id & ->)|(id & r & ->)]]; reflexivity.
+  - apply extra_news_kind in Hx as [->| ->]; reflexivity.
+Qed.
+
+Lemma getA_news_ent tau ag w : WA lc tau ag w -> Forall (fun x => entry_w lc tau (fst x) (snd x)) (fst (getA_eff tau w)).
+Proof.
+  intros W. unfold getA_eff. destruct (wa_items w) as [|x l] eqn:E; cbn [fst]; constructor; [|constructor].
+  cbn [fst snd entry_w]. pose proof (wa_acks _ _ _ _ W) as Ha. rewrite E in Ha. inversion Ha as [|? ? [A1 A2] _]; subst.
+  split; [apply nq_le|]. split; assumption.
+Qed.
+
+Lemma getD_news_ent tau w : Forall (fun x => entry_w lc tau (fst x) (snd x)) (fst (getD_eff tau w)).
+Proof. unfold getD_eff. destruct (wd_items w); cbn [fst]; constructor; [|constructor]. cbn [fst snd entry_w]. apply nq_le. Qed.
+
+Lemma getD_news_counts tau w p : p = is_holdA \/ p = is_initA \/ p = is_putA -> ncount p (fst (getD_eff tau w)) = O.
+Proof. unfold getD_eff. destruct (wd_items w); cbn [fst]; [reflexivity|]. intros [->|[->| ->]]; reflexivity. Qed.
+
+Lemma getA_news_counts tau w p : p = is_holdD \/ p = is_initD \/ p = is_putD -> ncount p (fst (getA_eff tau w)) = O.
+Proof. unfold getA_eff. destruct (wa_items w); cbn [fst]; [reflexivity|]. intros [->|[->| ->]]; reflexivity. Qed.
+
+Lemma ncount_ge1 p news x : In x news -> p (snd x) = true -> (1 <= ncount p news)%nat.
+Proof.
+  intros Hx Hp. unfold ncount. apply in_split in Hx as (l1 & l2 & ->). rewrite filter_app, app_length. cbn [filter]. rewrite Hp. cbn [length]. lia.
+Qed.
+
+Lemma wire_pred_holdD : wire_pred is_holdD. Proof. repeat split. Qed.
+Lemma wire_pred_initD : wire_pred is_initD. Proof. repeat split. Qed.
+Lemma wire_pred_holdA : wire_pred is_holdA. Proof. repeat split. Qed.
+Lemma wire_pred_initA : wire_pred is_initA. Proof. repeat split. Qed.
+Lemma wire_pred_putA : wire_pred is_putA. Proof. repeat split. Qed.
+
+Lemma ev_sender_roles st tau ev e isack : ev_sender lc st tau ev e isack ->
+  is_holdD ev = false /\ is_initD ev = false /\ is_putD ev = false /\ is_initA ev = false /\ is_putA ev = false /\
+  is_holdA ev = isack.
+Proof. destruct 1; repeat split. Qed.
+
+(* THE TIMING / CONTROL INVARIANT IS PRESERVED by every agenda step *)
+Lemma LInvW_step st a rest st' :
+  LInvA lc st None -> LInvW lc st -> l_agenda st = a :: rest -> Tr lc st a rest st' -> LInvW lc st'.
+Proof.
+  intros HA W E HT. destruct (la_T _ _ _ HA) as [Ts Tf _ _ _ _ _]. rewrite E in Ts, Tf.
+  assert (Hn : (l_now st <= ae_time a)%Q) by (inversion Tf; assumption).
+  assert (Hrest : forall b, In b rest -> (ae_time a <= ae_time b)%Q) by (intros b Hb; eapply asorted_head; eauto).
+  assert (Hall : forall b, In b (a :: rest) -> (ae_time a <= ae_time b)%Q) by (intros b [<-|Hb]; [apply Qle_refl|auto]).
+  destruct W as [W0 Wp We WDs WAs]. rewrite E in We, WDs, WAs.
+  assert (H0 : (0 <= ae_time a)%Q) by lra.
+  assert (Pk : pkt_ok (ae_time a) (l_pkt st)) by exact (pkt_ok_mono _ _ _ Hn Wp).
+  assert (EntR : Forall (fun b => entry_w lc (ae_time a) (ae_time b) (ae_ev b)) rest) by exact (ent_adv _ _ _ _ We Hn Hrest).
+  assert (WAt : WA lc (ae_time a) (a :: rest) (l_wa st)).
+  { eapply WA_adv; [exact WAs|exact Hn|]. intros r Hr. eapply head_time_acks; eauto. }
+  assert (HeldLe : forall b c, In b rest -> ackct (ae_ev b) = Some c -> (c <= ae_time a)%Q).
+  { intros b c Hb Hc. rewrite Forall_forall in We. specialize (We b (or_intror Hb)).
+    destruct (ae_ev b); cbn [ackct] in Hc; try discriminate; injection Hc as <-; cbn [entry_w] in We; lra. }
+  destruct HT as [e isack s' o nw kp k nwa Hev Hstep Ho Hnow Hsnd Hsink Hn2 Hslog Hn1 Hwd Hif HA' Hkp Hkeep Hpkt
+                 | id r Hev Hfind Hk Hwd Hwa HA' | Hev Hk Hwd Hwa Hag | Hev Hk Hwa Hwd HA' | Hev Hk Hwd Hwa HA'
+                 | id tm ct Hev Hp Hq Hk Hwd Hwa HA' | ackno pid tm ct Hev Hq Hk Hwd Hwa HA'
+                 | id tm ct Hev Hp Hnow Hsnd Hpkt Hn1 Hslog Hsink Hn2 Hwd Hif].
+  - (* a sender event *)
+    destruct (ev_sender_roles _ _ _ _ _ Hev) as (R1 & R2 & R3 & R4 & R5 & R6).
+    pose proof (sender_news_ent (ae_time a) o (l_n1 st) nw kp k (l_snd st) s' e Ho) as Ent1.
+    assert (Cn : forall p, wire_pred p -> p (AWirePutCb false) = false -> ncount p (nw ++ extra_news (ae_time a) (l_snd st) s' e) = O).
+    { intros p Hp Hf. rewrite (ncount_sender_news lc p _ _ _ _ _ _ _ _ _ Hp Ho), Hf. reflexivity. }
+    assert (CnA : forall p, p = is_holdD \/ p = is_initD \/ p = is_putD -> ncount p nwa = O).
+    { intros p Hp. destruct isack; destruct Hif as [-> _]; [apply getA_news_counts; exact Hp|reflexivity]. }
+    assert (EntA : Forall (fun x => entry_w lc (ae_time a) (fst x) (snd x)) nwa).
+    { destruct isack; destruct Hif as [-> _]; [eapply getA_news_ent; eauto|constructor]. }
+    constructor; rewrite ?Hnow.
+    + exact H0.
+    + apply Hpkt; assumption.
+    + eapply AddsT_ent; [exact HA'|exact EntR|]. apply Forall_app. split; assumption.
+    + rewrite Hwd. eapply WD_1; [exact WDs|exact HA'|exact R1|exact R2|exact R3| | |].
+      * rewrite ncount_app, (Cn _ wire_pred_holdD eq_refl), (CnA _ (or_introl eq_refl)). reflexivity.
+      * rewrite ncount_app, (Cn _ wire_pred_initD eq_refl), (CnA _ (or_intror (or_introl eq_refl))). reflexivity.
+      * intros Hne. destruct (oeff_kinds lc _ _ _ _ _ _ Ho) as [_ Hin]. specialize (Hin Hne).
+        eapply ncount_ge1; [apply in_or_app; left; apply in_or_app; left; exact Hin|reflexivity].
+    + destruct isack; destruct Hif as [-> ->].
+      * eapply WA_2; [exact WAt|exact HA'| | | |right; right; exact R6].
+        -- apply (Cn _ wire_pred_holdA eq_refl).
+        -- apply (Cn _ wire_pred_initA eq_refl).
+        -- intros x Hx. eapply sender_news_noack; eauto.
+      * eapply WA_0; [exact WAt|exact HA'| | | |].
+        -- rewrite app_nil_r, (Cn _ wire_pred_holdA eq_refl), R6. reflexivity.
+        -- rewrite app_nil_r, (Cn _ wire_pred_initA eq_refl), R4. reflexivity.
+        -- rewrite R5. discriminate.
+        -- intros x c Hx Hc. rewrite app_nil_r in Hx. rewrite (sender_news_noack _ _ _ _ _ _ _ _ _ x Ho Hx) in Hc. discriminate.
+  - (* Timer Initialize of an armed timer *)
+    destruct Hk as [k1 k2 k3 k4 k5 k6 k7]. unfold popped in *; lproj.
+    constructor; rewrite ?k1, ?k4, ?Hwd, ?Hwa; auto.
+    + eapply AddsT_ent; [exact HA'|exact EntR|]. constructor; [exact I|constructor].
+    + eapply WD_0; [exact WDs|exact HA'| | |]; rewrite Hev; cbn; try reflexivity. discriminate.
+    + eapply WA_0; [exact WAt|exact HA'| | | |]; rewrite Hev; cbn; try reflexivity; try discriminate.
+      intros x c [<-|[]]; discriminate.
+  - (* nothing to do *)
+    destruct Hk as [k1 k2 k3 k4 k5 k6 k7]. unfold popped in *; lproj.
+    assert (HA' : AddsT rest (l_agenda st') []) by (rewrite Hag; constructor).
+    constructor; rewrite ?k1, ?k4, ?Hwd, ?Hwa; auto.
+    + rewrite Hag. exact EntR.
+    + eapply WD_0; [exact WDs|exact HA'| | |]; destruct (ae_ev a) as [| | | | |[]| | | |]; cbn in *; try reflexivity; try discriminate; try contradiction; auto.
+    + eapply WA_0; [exact WAt|exact HA'| | | |]; try (intros x c []);
+        destruct (ae_ev a) as [| | | | |[]| | | |]; cbn in *; try reflexivity; try discriminate; try contradiction; auto.
+  - (* the data wire asks its store *)
+    destruct Hk as [k1 k2 k3 k4 k5 k6 k7]. unfold popped in *; lproj.
+    constructor; rewrite ?k1, ?k4, ?Hwd, ?Hwa; auto.
+    + eapply AddsT_ent; [exact HA'|exact EntR|apply getD_news_ent].
+    + eapply (WD_2 (ae_time a) a rest _ []); [exact WDs|exact HA'|reflexivity|reflexivity|].
+      destruct Hev as [->|[-> Hw]]; [left; reflexivity|right; left; split; [reflexivity|exact Hw]].
+    + eapply WA_0; [exact WAt|exact HA'| | | |].
+      * rewrite getD_news_counts by auto. destruct Hev as [->|[-> _]]; reflexivity.
+      * rewrite getD_news_counts by auto. destruct Hev as [->|[-> _]]; reflexivity.
+      * destruct Hev as [->|[-> _]]; discriminate.
+      * intros x c Hx Hc. exfalso. unfold getD_eff in Hx. destruct (wd_items (l_wd st)); cbn [fst] in Hx; [destruct Hx|].
+        destruct Hx as [<-|[]]. discriminate.
+  - (* the ACK wire asks its store *)
+    destruct Hk as [k1 k2 k3 k4 k5 k6 k7]. unfold popped in *; lproj.
+    constructor; rewrite ?k1, ?k4, ?Hwd, ?Hwa; auto.
+    + eapply AddsT_ent; [exact HA'|exact EntR|eapply getA_news_ent; eauto].
+    + eapply WD_0; [exact WDs|exact HA'| | |].
+      * rewrite getA_news_counts by auto. destruct Hev as [->|[-> _]]; reflexivity.
+      * rewrite getA_news_counts by auto. destruct Hev as [->|[-> _]]; reflexivity.
+      * destruct Hev as [->|[-> _]]; discriminate.
+    + eapply (WA_2 (ae_time a) a rest _ []); [exact WAt|exact HA'|reflexivity|reflexivity|intros x []|].
+      destruct Hev as [->|[-> Hw]]; [left; reflexivity|right; left; split; [reflexivity|exact Hw]].
+  - (* a data packet starts its propagation delay *)
+    destruct Hk as [k1 k2 k3 k4 k5 k6 k7]. unfold popped in *; lproj.
+    constructor; rewrite ?k1, ?k4, ?Hwd, ?Hwa; auto.
+    + eapply AddsT_ent; [exact HA'|exact EntR|]. constructor; [|constructor]. cbn [fst snd entry_w].
+      rewrite nq_eq. destruct (Pk id tm ct Hp) as [_ Hc]. lra.
+    + eapply WD_0; [exact WDs|exact HA'| | |]; rewrite Hev; cbn; try reflexivity. discriminate.
+    + eapply WA_0; [exact WAt|exact HA'| | | |]; rewrite Hev; cbn; try reflexivity; try discriminate.
+      intros x c [<-|[]]; discriminate.
+  - (* an ACK starts its propagation delay *)
+    destruct Hk as [k1 k2 k3 k4 k5 k6 k7]. unfold popped in *; lproj.
+    assert (Ea : entry_w lc (l_now st) (ae_time a) (ae_ev a)) by (inversion We; assumption). rewrite Hev in Ea. cbn [entry_w] in Ea.
+    constructor; rewrite ?k1, ?k4, ?Hwd, ?Hwa; auto.
+    + eapply AddsT_ent; [exact HA'|exact EntR|]. constructor; [|constructor]. cbn [fst snd entry_w].
+      rewrite nq_eq. split; lra.
+    + eapply WD_0; [exact WDs|exact HA'| | |]; rewrite Hev; cbn; try reflexivity. discriminate.
+    + eapply WA_0; [exact WAt|exact HA'| | | |]; rewrite Hev; cbn; try reflexivity; try discriminate.
+      intros x c [<-|[]] Hc; exact Hc.
+  - (* a data packet reaches the sink *)
+    assert (Ra : is_holdD (ae_ev a) = true /\ is_holdA (ae_ev a) = false /\ is_initA (ae_ev a) = false /\ is_putA (ae_ev a) = false).
+    { destruct Hev as [->|[-> _]]; repeat split. }
+    destruct Ra as (R1 & R2 & R3 & R4).
+    constructor; rewrite ?Hnow, ?Hpkt; auto.
+    + destruct (droppedA lc (l_n2 st)); destruct Hif as [_ HA'].
+      * eapply AddsT_ent; [exact HA'|exact EntR|apply getD_news_ent].
+      * eapply AddsT_ent; [exact HA'|exact EntR|]. constructor; [cbn [fst snd entry_w]; apply nq_le|apply getD_news_ent].
+    + rewrite Hwd. destruct (droppedA lc (l_n2 st)); destruct Hif as [_ HA'].
+      * eapply (WD_2 (ae_time a) a rest _ []); [exact WDs|exact HA'|reflexivity|reflexivity|right; right; exact R1].
+      * eapply (WD_2 (ae_time a) a rest _ [(nq (ae_time a), AWirePutCb true)]); [exact WDs|exact HA'|reflexivity|reflexivity|right; right; exact R1].
+    + destruct (droppedA lc (l_n2 st)); destruct Hif as [Hwa HA']; rewrite Hwa.
+      * eapply WA_0; [exact WAt|exact HA'| | | |].
+        -- rewrite getD_news_counts by auto. rewrite R2. reflexivity.
+        -- rewrite getD_news_counts by auto. rewrite R3. reflexivity.
+        -- rewrite R4. discriminate.
+        -- intros x c Hx Hc. exfalso. unfold getD_eff in Hx. destruct (wd_items (l_wd st)); cbn [fst] in Hx; [destruct Hx|].
+           destruct Hx as [<-|[]]. discriminate.
+      * eapply WA_1; [exact WAt|exact HA'|reflexivity|exact R2|exact R3|exact R4| | | | |exact HeldLe].
+        -- rewrite ncount_cons, getD_news_counts by auto. reflexivity.
+        -- rewrite ncount_cons, getD_news_counts by auto. reflexivity.
+        -- rewrite ncount_cons. cbn [snd is_putA b2n]. lia.
+        -- intros x [<-|Hx]; [reflexivity|]. unfold getD_eff in Hx. destruct (wd_items (l_wd st)); cbn [fst] in Hx; [destruct Hx|].
+           destruct Hx as [<-|[]]. reflexivity.
+Qed.
+End Wstep.
+
+Lemma linit_W lc cw ss rtt0 orc : LInvW lc (linit cw ss rtt0 orc).
+Proof.
+  unfold linit. constructor; lproj.
+  - apply Qle_refl.
+  - intros id t c H. discriminate.
+  - repeat constructor; cbn; apply Qle_refl.
+  - constructor; cbn; [reflexivity|]. intros _ H. contradiction.
+  - constructor; cbn; auto; try (intros _ H; contradiction);
+      try (intros a c [<-|[<-|[<-|[]]]]; discriminate).
+Qed.
+
+Lemma reach_W lc cw ss rtt0 orc st :
+  lc_ok lc -> (zq (mss (lc_cfg lc)) <= cw)%Q -> (0 < rtt0)%Q ->
+  lreach lc (linit cw ss rtt0 orc) st -> LInvW lc st.
+Proof.
+  intros Hok Hc Hr. induction 1 as [|st st' Hreach IH Hstep]; [apply linit_W|].
+  pose proof (reach_A lc cw ss rtt0 orc st Hok Hc Hr Hreach) as HA.
+  pose proof Hstep as Hs. unfold lstep in Hs. destruct (l_agenda st) as [|a rest] eqn:E; [discriminate|]. clear Hs.
+  eapply LInvW_step; eauto; [apply Hok|]. eapply lstep_Tr; eauto. apply Hok.
+Qed.
